@@ -137,7 +137,7 @@ func c04RunKeys(c *Ctx, opt func() string) {
 		a, b := c04WidePair(r, g)
 		def := a
 		for j := range srcs {
-			srcs[j] = c04Source{Via: pick(r, []string{"yaml", "yaml", "json", "json", "map", "dom"}), Doc: b}
+			srcs[j] = c04Source{Via: pick(r, c04Vias), Doc: b}
 			b = g.Mutate(r, b)
 		}
 		c.Dist("keys:any-string")
